@@ -1,7 +1,7 @@
 (* The predicate evaluated by the judge holds of the model's own output for all inputs:
    stream/unary transcripts, default names, and whole histories on a generated router. *)
 From SC Require Import Base.Prelude Router.Registry Router.RegistryProofs Router.Pump Router.PumpProofs
-  Router.Route Router.NameDefault Router.RegistryW Router.RegistryWProofs Router.C12Judge.
+  Router.Route Router.NameDefault Router.RegistryW Router.RegistryWProofs Router.RouteW Router.RouteWProofs Router.C12Judge.
 
 Lemma list_eqb_refl : forall {A} (e : A -> A -> bool) l, (forall x, e x x = true) -> list_eqb e l l = true.
 Proof. intros A e l H. induction l as [|x l IH]; cbn; auto. rewrite H, IH. reflexivity. Qed.
@@ -166,4 +166,237 @@ Theorem judge_agrees_ok_default_stream : forall name ok r obs,
 Proof.
   intros name ok r obs. cbn [agrees C12_ok]. unfold stream_recv, default_ok, replace_empty_name.
   destruct ok; destruct (shape r) as [| | |n|s] eqn:E; auto. cbn [andb]. destruct (String.eqb s ""); auto.
+Qed.
+
+(* ---- boolean equalities reflect equality ---- *)
+Lemma list_eqb_eq : forall {A} (e : A -> A -> bool), (forall x y, e x y = true -> x = y) ->
+  forall a b, list_eqb e a b = true -> a = b.
+Proof.
+  intros A e He a. induction a as [|x a IH]; intros [|y b] H; cbn in H; try discriminate; auto.
+  apply andb_true_iff in H. destruct H as [H1 H2]. rewrite (He _ _ H1), (IH _ H2). reflexivity.
+Qed.
+Lemma option_eqb_eq : forall {A} (e : A -> A -> bool), (forall x y, e x y = true -> x = y) ->
+  forall a b, option_eqb e a b = true -> a = b.
+Proof. intros A e He [x|] [y|] H; cbn in H; try discriminate; auto. rewrite (He _ _ H). reflexivity. Qed.
+Lemma Zeqb_eq : forall x y, (x =? y) = true -> x = y.
+Proof. intros x y H. apply Z.eqb_eq. exact H. Qed.
+Lemma Seqb_eq : forall x y, String.eqb x y = true -> x = y.
+Proof. intros x y H. apply String.eqb_eq. exact H. Qed.
+Lemma md_eqb_eq : forall a b, md_eqb a b = true -> a = b.
+Proof.
+  apply list_eqb_eq. intros [k vs] [k' vs'] H. cbn in H. apply andb_true_iff in H. destruct H as [H1 H2].
+  rewrite (Seqb_eq _ _ H1), (list_eqb_eq String.eqb Seqb_eq _ _ H2). reflexivity.
+Qed.
+Lemma status_eqb_eq : forall a b, status_eqb a b = true -> a = b.
+Proof.
+  intros [c m] [c' m'] H. unfold status_eqb in H. cbn in H. apply andb_true_iff in H. destruct H as [H1 H2].
+  rewrite (Zeqb_eq _ _ H1), (Seqb_eq _ _ H2). reflexivity.
+Qed.
+Lemma transcript_eqb_eq : forall a b, transcript_eqb a b = true -> a = b.
+Proof.
+  intros [h ms tr st ca rc] [h' ms' tr' st' ca' rc'] H. unfold transcript_eqb in H. cbn in H.
+  repeat (apply andb_true_iff in H; destruct H as [H ?]).
+  rewrite (option_eqb_eq md_eqb md_eqb_eq _ _ H), (list_eqb_eq Z.eqb Zeqb_eq _ _ H4),
+    (option_eqb_eq md_eqb md_eqb_eq _ _ H3), (option_eqb_eq status_eqb status_eqb_eq _ _ H2),
+    (Bool.eqb_prop _ _ H1), (Zeqb_eq _ _ H0). reflexivity.
+Qed.
+Lemma call_eqb_eq : forall a b, call_eqb a b = true -> a = b.
+Proof.
+  intros [[c m] r] [[c' m'] r'] H. cbn in H. repeat (apply andb_true_iff in H; destruct H as [H ?]).
+  rewrite (Zeqb_eq _ _ H), (Bool.eqb_prop _ _ H1), (Bool.eqb_prop _ _ H0). reflexivity.
+Qed.
+Lemma rres_eqb_eq : forall a b, rres_eqb a b = true -> a = b.
+Proof.
+  intros [c|x|[c|m]] [c'|x'|[c'|m']] H; cbn in H; try discriminate.
+  - rewrite (Zeqb_eq _ _ H). reflexivity.
+  - rewrite (Bool.eqb_prop _ _ H). reflexivity.
+  - rewrite (Zeqb_eq _ _ H). reflexivity.
+  - rewrite (Seqb_eq _ _ H). reflexivity.
+Qed.
+Lemma change_eqb_eq : forall a b, change_eqb a b = true -> a = b.
+Proof.
+  intros [n o c a] [n' o' c' a'] H. unfold change_eqb in H. cbn in H.
+  repeat (apply andb_true_iff in H; destruct H as [H ?]).
+  rewrite (Seqb_eq _ _ H), (Zeqb_eq _ _ H2), (Zeqb_eq _ _ H1), (Bool.eqb_prop _ _ H0). reflexivity.
+Qed.
+Lemma hres_eqb_eq : forall a b, hres_eqb a b = true -> a = b.
+Proof.
+  intros [x| |c t] [y| |c' t'] H; cbn in H; try discriminate; auto.
+  - rewrite (rres_eqb_eq _ _ H). reflexivity.
+  - apply andb_true_iff in H. destruct H as [H1 H2].
+    rewrite (list_eqb_eq call_eqb call_eqb_eq _ _ H1), (transcript_eqb_eq _ _ H2). reflexivity.
+Qed.
+Lemma xres_eqb_eq : forall a b, xres_eqb a b = true -> a = b.
+Proof.
+  intros [x| |v e a1 b1|c t a1 b1|] [y| |v' e' a2 b2|c' t' a2 b2|] H; cbn in H; try discriminate; auto.
+  - rewrite (rres_eqb_eq _ _ H). reflexivity.
+  - repeat (apply andb_true_iff in H; destruct H as [H ?]).
+    rewrite (Zeqb_eq _ _ H), (option_eqb_eq status_eqb status_eqb_eq _ _ H2), (Zeqb_eq _ _ H1), (Zeqb_eq _ _ H0). reflexivity.
+  - repeat (apply andb_true_iff in H; destruct H as [H ?]).
+    rewrite (list_eqb_eq call_eqb call_eqb_eq _ _ H), (transcript_eqb_eq _ _ H2), (Zeqb_eq _ _ H1), (Zeqb_eq _ _ H0). reflexivity.
+Qed.
+
+(* router histories: whenever the code's observation agrees with the model (Route.v) it satisfies
+   the plain-map predicate *)
+Theorem judge_agrees_ok_hist : forall g first ops obs log,
+  agrees (KHist g first ops obs log) = true -> C12_ok (KHist g first ops obs log) = true.
+Proof.
+  intros g first ops obs log. cbn [agrees C12_ok].
+  destruct (hist_ok_sound g ops (init first) (mkP pempty [] first) (R_init first)) as [p' [Hh [_ [Hl _]]]].
+  destruct (hrun g (init first) ops) as [s rs]. cbn [fst snd] in *. intros H.
+  apply andb_true_iff in H. destruct H as [H1 H2].
+  rewrite (list_eqb_eq hres_eqb hres_eqb_eq _ _ H1), Hh, <- Hl. exact H2.
+Qed.
+
+(* ---- generated routers with per-call outcomes (RouteW.v) ---- *)
+Lemma pstepW_get_shape : forall o p n fbo fao, exists p' g k1 k2,
+  pstepW o p (WGet n fbo fao) = (p', WR (RGet g) k1 k2).
+Proof.
+  intros o p n fbo fao. cbn [pstepW]. destruct (pm p n); [eauto|].
+  destruct (if w_fb o then yields fbo else None); [eauto|].
+  destruct (if w_fac o then yields fao else None); eauto.
+Qed.
+
+Lemma routed_ok_notfound : forall m n b, routed_ok (NotFound m) n [] (not_found_tr m) b = true.
+Proof.
+  intros m n b. unfold routed_ok, not_found_tr, not_found_code, is_prefix_tr, status_eqb. cbn.
+  rewrite String.eqb_refl. reflexivity.
+Qed.
+
+(* the plain-map run satisfies the history predicate *)
+Lemma xhist_ok_spec : forall o ops p, xhist_ok o p ops (snd (prunX o p ops)) = Some (fst (prunX o p ops)).
+Proof.
+  intros o ops. induction ops as [|op ops IH]; intros p; cbn [prunX].
+  - reflexivity.
+  - destruct (pstepX o p op) as [p1 y] eqn:E. specialize (IH p1). destruct (prunX o p1 ops) as [p2 ys].
+    cbn [fst snd] in *.
+    destruct op as [n c|n|n|n fbo fao|n fbo fao|n fbo fao u|n fbo fao c k]; cbn [pstepX] in E.
+    + destruct (c =? nil_client) eqn:Ec.
+      * inversion E; subst. cbn [xhist_ok]. rewrite Ec. exact IH.
+      * destruct (pstepW o p (WAdd n c)) as [p' [r a b]] eqn:EW. inversion E; subst.
+        cbn [xhist_ok]. rewrite Ec, EW, rres_sim_refl. exact IH.
+    + destruct (pstepW o p (WRemove n)) as [p' [r a b]] eqn:EW. inversion E; subst.
+      cbn [xhist_ok]. rewrite EW, rres_sim_refl. exact IH.
+    + destruct (pstepW o p (WHas n)) as [p' [r a b]] eqn:EW. inversion E; subst.
+      cbn [xhist_ok]. rewrite EW, rres_sim_refl. exact IH.
+    + destruct (pstepW_get_shape o p n fbo fao) as (p' & g & k1 & k2 & EW). unfold pget in E. rewrite EW in E.
+      destruct g as [cl|m]; inversion E; subst; cbn [xhist_ok]; rewrite EW, !Z.eqb_refl; cbn [got_ok andb];
+        [rewrite Z.eqb_refl|unfold not_found_code; cbn]; exact IH.
+    + destruct (pstepW_get_shape o p n fbo fao) as (p' & g & k1 & k2 & EW). unfold pget in E. rewrite EW in E.
+      destruct g as [cl|m]; inversion E; subst; cbn [xhist_ok]; rewrite EW, !Z.eqb_refl; cbn [got_ok andb];
+        [rewrite Z.eqb_refl|unfold not_found_code; cbn]; exact IH.
+    + destruct (pstepW_get_shape o p n fbo fao) as (p' & g & k1 & k2 & EW). unfold pget in E. rewrite EW in E.
+      destruct g as [cl|m]; inversion E; subst; cbn [xhist_ok]; rewrite EW, !Z.eqb_refl; cbn [andb].
+      * cbn [routed_ok]. rewrite Z.eqb_refl, unary_ok_sound. exact IH.
+      * rewrite routed_ok_notfound. exact IH.
+    + destruct (pstepW_get_shape o p n fbo fao) as (p' & g & k1 & k2 & EW). unfold pget in E. rewrite EW in E.
+      destruct g as [cl|m]; inversion E; subst; cbn [xhist_ok]; rewrite EW, !Z.eqb_refl; cbn [andb].
+      * cbn [routed_ok]. rewrite Z.eqb_refl, stream_ok_sound. exact IH.
+      * rewrite routed_ok_notfound. exact IH.
+Qed.
+
+(* the judge's predicate holds of the model (RouteW.v) on every history, any option subset, any
+   per-call outcomes *)
+Theorem judge_sound_routew : forall o fe ae ops,
+  C12_ok (KRouteW o fe ae ops (snd (xrun o fe ae (init 1) ops)) (wlog o (fst (xrun o fe ae (init 1) ops)))) = true.
+Proof.
+  intros o fe ae ops. cbn [C12_ok]. unfold routew_ok.
+  destruct (routeW_is_map o fe ae ops _ _ RW_init NN_init) as [Hr [[_ Hl] _]].
+  rewrite Hr, xhist_ok_spec. unfold wlog. rewrite Hl. apply list_eqb_refl. apply change_eqb_refl.
+Qed.
+
+Theorem judge_agrees_ok_routew : forall o fe ae ops obs log,
+  agrees (KRouteW o fe ae ops obs log) = true -> C12_ok (KRouteW o fe ae ops obs log) = true.
+Proof.
+  intros o fe ae ops obs log. cbn [agrees]. pose proof (judge_sound_routew o fe ae ops) as HS.
+  destruct (xrun o fe ae (init 1) ops) as [s rs]. cbn [fst snd] in HS. intros H.
+  apply andb_true_iff in H. destruct H as [H1 H2].
+  rewrite (list_eqb_eq xres_eqb xres_eqb_eq _ _ H1).
+  cbn [C12_ok] in *. unfold routew_ok in *. destruct (xhist_ok o (mkP pempty [] 1) ops rs) as [p|]; [|discriminate].
+  rewrite <- (list_eqb_eq change_eqb change_eqb_eq _ _ HS). exact H2.
+Qed.
+
+(* ---- sequences and stream sessions through the default-name interceptors ---- *)
+Definition is_str (f : fdesc) : bool := match fk f with FString => true | _ => false end.
+
+Lemma existsb_none : forall n l, filter named l = [] ->
+  existsb (fun f => String.eqb (ftext f) "name" && (fnum f =? n) && match fk f with FString => true | _ => false end) l = false.
+Proof.
+  intros n l. induction l as [|f l IH]; cbn; auto. unfold named at 1. destruct (String.eqb (ftext f) "name"); cbn; [discriminate|auto].
+Qed.
+
+Lemma is_name_first : forall n l, zlen (filter named l) <=? 1 = true ->
+  existsb (fun f => String.eqb (ftext f) "name" && (fnum f =? n) && match fk f with FString => true | _ => false end) l
+  = match List.find named l with Some f => is_str f && (n =? fnum f) | None => false end.
+Proof.
+  intros n l. induction l as [|f l IH]; cbn [filter existsb List.find]; auto.
+  destruct (named f) eqn:E; intros H.
+  - unfold named in E. rewrite E. cbn [andb].
+    assert (Hr : filter named l = []).
+    { destruct (filter named l) eqn:EF; auto. rewrite !zlen_cons in H. unfold zlen in H. apply Z.leb_le in H. lia. }
+    rewrite (existsb_none n l Hr), orb_false_r. unfold is_str. rewrite (Z.eqb_sym (fnum f) n). apply andb_comm.
+  - unfold named in E. rewrite E. cbn [andb orb]. apply IH. exact H.
+Qed.
+
+Lemma fields_ok_model : forall t applied d v, type_wf t = true ->
+  fields_ok t applied d v (if applied then replace_in t v d else v) = true.
+Proof.
+  intros t applied d v Hwf. unfold type_wf in Hwf.
+  assert (Hsame : forall v, fields_ok t false d v v = true).
+  { induction v0 as [|[n x] v0 IH]; cbn; auto. rewrite Z.eqb_refl, String.eqb_refl, IH. reflexivity. }
+  destruct applied; [|apply Hsame]. unfold replace_in.
+  induction v as [|[n x] v IH]; cbn [map]; auto.
+  assert (Hhead : is_empty_name t (n, x) =
+     existsb (fun f => String.eqb (ftext f) "name" && (fnum f =? n) && match fk f with FString => true | _ => false end) (tfields t)
+     && String.eqb x "").
+  { rewrite (is_name_first n _ Hwf). unfold is_empty_name, name_field. fold named.
+    destruct (List.find named (tfields t)) as [f|]; cbn [fst snd]; auto.
+    unfold is_str. destruct (fk f); cbn [andb]; auto. }
+  destruct (is_empty_name t (n, x)) eqn:Ee; cbn [fields_ok fst snd]; rewrite IH, Z.eqb_refl, andb_true_r; cbn [andb].
+  - symmetry in Hhead. apply andb_true_iff in Hhead. destruct Hhead as [H1 H2]. rewrite H1, H2. apply String.eqb_refl.
+  - destruct (existsb _ (tfields t)); cbn [andb] in *; [rewrite <- Hhead|]; apply String.eqb_refl.
+Qed.
+
+Lemma seq_ok_model : forall d steps, steps_wf steps = true -> seq_ok d steps (run_seq d steps) = true.
+Proof.
+  intros d steps. induction steps as [|[[path t] v] steps IH]; cbn [steps_wf forallb run_seq map seq_ok]; auto.
+  cbn [fst snd]. intros H. apply andb_true_iff in H. destruct H as [Ht Hs].
+  unfold run_seq, steps_wf in IH. rewrite (IH Hs), andb_true_r. unfold run_step.
+  pose proof (fields_ok_model t (negb (path =? 2)) d v Ht) as HF.
+  destruct (path =? 2); exact HF.
+Qed.
+
+Definition as_steps (rs : list recvd) : list dstep :=
+  map (fun r => let '(ok, t, v) := r in ((if ok : bool then 1 else 2), t, v)) rs.
+
+Lemma session_is_seq : forall d rs, stream_session d rs = run_seq d (as_steps rs).
+Proof.
+  intros d rs. unfold stream_session, run_seq, as_steps. rewrite map_map. apply map_ext.
+  intros [[ok t] v]. destruct ok; reflexivity.
+Qed.
+
+Lemma as_steps_wf : forall rs, recvd_wf rs = true -> steps_wf (as_steps rs) = true.
+Proof.
+  intros rs. unfold recvd_wf, steps_wf, as_steps. induction rs as [|[[ok t] v] rs IH]; cbn; auto.
+  intros H. apply andb_true_iff in H. destruct H as [H1 H2]. rewrite H1, (IH H2). reflexivity.
+Qed.
+
+Lemma mvalue_eqb_eq : forall a b, mvalue_eqb a b = true -> a = b.
+Proof.
+  apply list_eqb_eq. intros [n x] [n' x'] H. cbn in H. apply andb_true_iff in H. destruct H as [H1 H2].
+  rewrite (Zeqb_eq _ _ H1), (Seqb_eq _ _ H2). reflexivity.
+Qed.
+
+Theorem judge_agrees_ok_seq : forall name steps obs, steps_wf steps = true ->
+  agrees (KDefaultSeq name steps obs) = true -> C12_ok (KDefaultSeq name steps obs) = true.
+Proof.
+  intros name steps obs Hwf H. cbn [agrees C12_ok] in *.
+  rewrite (list_eqb_eq mvalue_eqb mvalue_eqb_eq _ _ H). apply seq_ok_model. exact Hwf.
+Qed.
+
+Theorem judge_agrees_ok_session : forall name rs obs, recvd_wf rs = true ->
+  agrees (KStreamSession name rs obs) = true -> C12_ok (KStreamSession name rs obs) = true.
+Proof.
+  intros name rs obs Hwf H. cbn [agrees C12_ok] in *.
+  rewrite (list_eqb_eq mvalue_eqb mvalue_eqb_eq _ _ H), session_is_seq. apply seq_ok_model. apply as_steps_wf. exact Hwf.
 Qed.
